@@ -167,6 +167,18 @@ Proof.
   destruct pos, st; cbn; try rewrite convert_res_snd; exact H.
 Qed.
 
+Lemma eval_any_inscope mv help check anywhere : ev_inscope (eval_any mv help check anywhere).
+Proof.
+  intros s. unfold eval_any.
+  match goal with |- context [match ?f with Some _ => _ | None => _ end] =>
+                  destruct f as [ix|] end; [|cbn; apply inrel_refl].
+  destruct (nth_error (items s) ix) as [a|]; [|cbn; apply inrel_refl].
+  destruct (check (arg_os a)) as [v|]; [|cbn; apply inrel_refl].
+  cbn [snd]. match goal with |- context [if ?b then _ else _] => destruct b end.
+  - eapply inrel_trans; apply inrel_sremove.
+  - apply inrel_sremove.
+Qed.
+
 Lemma parse_option_inscope ev len s c :
   ev_inscope ev -> inrel s (snd (parse_option ev len s c)).
 Proof.
@@ -470,4 +482,40 @@ Proof.
   - eapply IH; eauto.
   - inv H. pose proof (adj_try_scope ev s (item_width it) st best) as Hs. rewrite Ht in Hs. cbn in Hs.
     exfalso. eapply Hs; eauto.
+Qed.
+
+(* ------------------------------------------------------------------ which block is taken *)
+(* start offsets are tried from left to right; the value comes from the FIRST one at which the group
+   parses (so `many` over the group yields the blocks in command-line order) *)
+Theorem adj_outer_first ev orig width : forall starts best v fin,
+  adj_outer ev orig width starts best = (ROk v, fin) ->
+  exists before start after best',
+    starts = before ++ start :: after /\
+    adj_try ev orig width start best' = AReturn v fin /\
+    (forall st, In st before -> exists b0 b1, adj_try ev orig width st b0 = ANext b1).
+Proof.
+  induction starts as [|st more IH]; intros best v fin H; cbn [adj_outer] in H; [discriminate|].
+  destruct (adj_try ev orig width st best) as [v0 s0|best'|r s0] eqn:E.
+  - inversion H; subst. exists [], st, more, best. split; [reflexivity|]. split; [exact E|]. intros x [].
+  - destruct (IH best' v fin H) as (before & start & after & b' & Hs & Ht & Hb).
+    exists (st :: before), start, after, b'. split; [cbn; rewrite Hs; reflexivity|]. split; [exact Ht|].
+    intros x [<-|Hx]; [eauto|apply Hb, Hx].
+  - inversion H; subst. pose proof (adj_try_scope ev orig width st best) as Hs. rewrite E in Hs. cbn in Hs.
+    exfalso. eapply Hs; eauto.
+Qed.
+
+Lemma adj_starts_sorted s width : forall i j a b,
+  nth_error (adj_starts s width) i = Some a -> nth_error (adj_starts s width) j = Some b -> i < j -> a < b.
+Proof.
+  unfold adj_starts.
+  assert (G : forall (f : nat -> bool) n st i j a b,
+             nth_error (filter f (seq st n)) i = Some a -> nth_error (filter f (seq st n)) j = Some b -> i < j -> a < b).
+  { intros f. induction n as [|n IH]; intros st i j a b Hi Hj Hlt; cbn [seq filter] in *; [destruct i; discriminate|].
+    destruct (f st).
+    - destruct i as [|i]; destruct j as [|j]; try lia; cbn [nth_error] in *.
+      + inversion Hi; subst. assert (Hin : In b (filter f (seq (S a) n))) by (eapply nth_error_In; eauto).
+        apply filter_In in Hin. destruct Hin as [Hin _]. apply in_seq in Hin. lia.
+      + eapply IH; eauto. lia.
+    - eapply IH; eauto. }
+  intros i j a b. apply G.
 Qed.
